@@ -1126,7 +1126,10 @@ func (g *gen) each(d int) any {
 	g.inEach = true
 	defer func() { g.inEach = was }()
 	var fn any
-	switch g.r.Intn(6) {
+	switch g.r.Intn(7) {
+	case 6:
+		// the member written is named by the element: the path is built anew for each element
+		fn = []any{"set", []any{"at", "asm", g.pick("@.src.name", "@.src.name", "@.src.id", "@.src")}, g.pick("@.src.w", "@.src.id", g.any(d-1))}
 	case 0:
 		fn = []any{"set", "@.asm", g.num(d - 1)}
 	case 1:
@@ -1228,6 +1231,11 @@ func (g *gen) plan() []any {
 			// restore @ to the root for the statements that follow
 			plan = append(plan, "$")
 		case 4:
+			if g.r.Intn(2) == 0 {
+				// the target path is built from the data: it has to be built again on every evaluation
+				plan = append(plan, []any{"set", []any{g.pick("root", "at").(string), "asm", g.pick("$.src.s", "$.src.t", "$.src.m.k", "@.src.s")}, g.any(d)})
+				break
+			}
 			plan = append(plan, []any{"set", []any{g.pick("root", "at").(string), "asm", g.pick("p", "q", "p.r", "[0]", "a b").(string)}, g.any(d)})
 		case 5:
 			// wrong arity or an unknown function name (a literal array)
